@@ -728,9 +728,67 @@ func c12Exposure(r *Report) {
 		// refuses) that also drops the votes leaves metadataGuess without a size: nothing is requested any more.
 		mcF := p.Func("tor", "Torrent.MetadataComplete")
 		icF := p.Func("tor", "Torrent.InfoComplete")
-		completed := func(g Guard) bool {
-			if x, isNil, ok := nilFact(g); ok && isNil {
-				if c, _ := callOfValue(x); c != nil && mcF != nil && c.Call.StaticCallee() == mcF {
+		var completed func(g Guard) bool
+		// okVal: v == nil implies that MetadataComplete() returned nil — v is its result, or something that is never
+		// nil (errors.New(…)), or a phi / the result of a helper of the package all of whose sources are such
+		var okVal func(v ssa.Value, at *ssa.BasicBlock, d int) bool
+		okVal = func(v ssa.Value, at *ssa.BasicBlock, d int) bool {
+			if d > 4 || v == nil {
+				return false
+			}
+			if isNilConst(v) {
+				if at != nil {
+					for _, g := range guardsOf(at) {
+						if completed(g) {
+							return true
+						}
+					}
+				}
+				return false
+			}
+			switch x := v.(type) {
+			case *ssa.Phi:
+				for i, e := range x.Edges {
+					if i >= len(x.Block().Preds) || !okVal(e, x.Block().Preds[i], d+1) {
+						return false
+					}
+				}
+				return true
+			case *ssa.MakeInterface:
+				return true
+			case *ssa.UnOp:
+				if _, isG := x.X.(*ssa.Global); isG {
+					return true // a package-level error value
+				}
+			}
+			c, idx := callOfValue(v)
+			if c == nil || c.Call.IsInvoke() {
+				return false
+			}
+			if isStdCall(c, "errors", "", "New") || isStdCall(c, "fmt", "", "Errorf") {
+				return true
+			}
+			h := c.Call.StaticCallee()
+			if h == nil {
+				return false
+			}
+			if h == mcF {
+				return true
+			}
+			if h.Blocks == nil || relPkg(h) != "tor" {
+				return false
+			}
+			for _, ret := range returnsOf(h) {
+				res := retResults(ret)
+				if idx >= len(res) || !okVal(res[idx], ret.Block(), d+1) {
+					return false
+				}
+			}
+			return true
+		}
+		completed = func(g Guard) bool {
+			if x, isNil, ok := nilFact(g); ok && isNil && mcF != nil {
+				if okVal(x, nil, 0) {
 					return true
 				}
 			}
